@@ -476,6 +476,8 @@ def canon_nd(t, ranks=None):
                     specs = [STAR] * rk
                     specs[ax[1]] = args[2]
                     r = _sel_compose(args[0], specs)
+            elif op == 'index' and len(args) == 2 and T.is_app(args[0], 'shape') and len(args[0][2]) == 1 and T.is_app(args[0][2][0], 'sel') and T.is_num(args[1]):
+                r = free_axis_size(args[0][2][0], int(T.numval(args[1])))        # size of the j-th remaining axis of a selection
             elif op == 'index' and len(args) == 2:
                 b, i = args
                 if i[0] == 'tuple' and rank_of(b) == len(i[1]):
